@@ -629,3 +629,88 @@ func fieldName(fa *ssa.FieldAddr) string {
 	}
 	return ""
 }
+
+// initialisedFileOnly (C14.4b): createSegment creates the file and sizes it
+// in two steps; a process killed in between leaves a file shorter than the
+// 16-byte segment header under the name that continues the chain. Open must
+// not map such a file: openSegment maps a file only after createSegment made
+// it on this path, or after fileExists vouched for it — and fileExists says
+// true only for a file at least as long as the header (F17).
+func (h H) initialisedFileOnly(rule string) {
+	fe := h.fn("log:fileExists")
+	ffi := h.P.Info(fe)
+	n := 0
+	for k, r := range core.Returns(fe) {
+		if len(r.Results) != 2 {
+			continue
+		}
+		c, ok := r.Results[0].(*ssa.Const)
+		if !ok || c.Value == nil || c.Value.String() != "true" {
+			continue
+		}
+		n++
+		res := ffi.MustCross(r, func(a core.Atom) bool {
+			sz := func(s string) bool { return strings.HasPrefix(s, "invoke:Size(") || strings.Contains(s, ").Size(") }
+			num := func(s string) (int, bool) {
+				v := 0
+				_, err := fmt.Sscanf(s, "%d", &v)
+				return v, err == nil
+			}
+			if sz(a.L) {
+				if v, ok := num(a.R); ok {
+					return a.Op == ">=" && v >= 16 || a.Op == ">" && v >= 15
+				}
+			}
+			if sz(a.R) {
+				if v, ok := num(a.L); ok {
+					return a.Op == "<=" && v >= 16 || a.Op == "<" && v >= 15
+				}
+			}
+			return false
+		})
+		h.C.Check(rule+" header-sized", fmt.Sprintf("log.fileExists true-return#%d", k+1), res.OK, h.pos(r), "fileExists vouches for a file that may be shorter than the 16-byte segment header (createSegment interrupted before sizing it): openSegment would map it and Open fail: "+res.Witness)
+	}
+	h.C.Floor(rule+" (true returns of fileExists)", n, 1)
+	os := h.fn("log:openSegment")
+	ofi := h.P.Info(os)
+	cs := h.fn("log:createSegment")
+	m := 0
+	core.Instrs(os, func(in ssa.Instruction) {
+		c, ok := in.(*ssa.Call)
+		if !ok || c.Common().StaticCallee() == nil || c.Common().StaticCallee().String() != "github.com/santhosh-tekuri/raft/mmap.OpenFile" {
+			return
+		}
+		m++
+		res := ofi.MustCrossOrPass(in, func(a core.Atom) bool {
+			return a.Op == "true" && strings.HasPrefix(a.L, "log.fileExists(") && strings.HasSuffix(a.L, "#0")
+		}, nil, func(x ssa.Instruction) bool { return h.P.IsCallTo(x, cs) })
+		h.C.Check(rule+" map-only-vouched", "log.openSegment → mmap.OpenFile", res.OK, h.pos(in), "a segment file is mapped that neither createSegment initialised on this path nor fileExists vouched for: "+res.Witness)
+	})
+	h.C.Floor(rule+" (mmap.OpenFile in openSegment)", m, 1)
+}
+
+// rollOverFits (C13.4c): when Append rolls over, the new segment is created
+// with the configured size, or — for an entry that does not fit a segment of
+// that size — with a size raised to hold it. The comparison must be made
+// against the configured size (what createSegment will use), not against the
+// current file: a log reopened with its original options behind an enlarged
+// segment would otherwise create a normal-sized segment for an entry that
+// overflows it (append copies silently short and overwrites the offsets).
+func (h H) rollOverFits(rule string) {
+	fn := h.fn("log:(*Log).Append")
+	fi := h.P.Info(fn)
+	os := h.fn("log:openSegment")
+	fits := core.MkAtom("len($1)", "<=", "(Log.opt.SegmentSize - 24)")
+	n := 0
+	for k, c := range h.P.CallsTo(fn, os) {
+		n++
+		r := fi.MustCrossOrPass(c.(ssa.Instruction), func(a core.Atom) bool { return a.Implies(fits) }, nil, func(in ssa.Instruction) bool {
+			st, ok := in.(*ssa.Store)
+			return ok && fi.Sym(st.Addr).String() == "Log.opt.SegmentSize" && fi.Sym(st.Val).String() == "(len($1) + 24)"
+		})
+		h.C.Check(rule+" new-segment-holds-entry", h.site(fn, os, k), r.OK, h.pos(c.(ssa.Instruction)), "the segment created at roll-over may be too small for the entry about to be appended (neither len(b) <= opt.SegmentSize-24 nor opt.SegmentSize raised to len(b)+24): "+r.Witness)
+		// it is created with the log's options
+		h.C.Check(rule+" created-with-options", h.site(fn, os, k), h.argStr(c, 2) == "Log.opt", h.pos(c.(ssa.Instruction)), "the new segment must be created with the log's options; found "+h.argStr(c, 2))
+	}
+	h.C.Floor(rule+" (roll-over sites)", n, 1)
+}
